@@ -64,6 +64,23 @@ def check_atomic_lock(ctx, prog):
     RMW = ('operator+=', 'operator-=', 'operator*=', 'operator/=', 'operator%=', 'operator|=', 'operator&=', 'operator^=', 'operator<<=', 'operator>>=', 'operator++', 'operator--')
     for f in members:
         refs = [e for e in fn_exprs(f) if e.get('k') == 'mem' and e.get('f') == '_x']
+        if not refs and f.get('n') in RMW and any(e.get('k') == 'call' and (e.get('pq') or '').endswith('Atomic::locked') for e in fn_exprs(f)):
+            # through the guard returned by locked(): the lock is held for the full expression that contains the temporary guard
+            ctx.analysed(f)
+            n += 1
+            escaped = []
+            for s_ in ir.walk_stmts(f['body']):
+                if s_.get('k') == 'decl':
+                    for v in s_['vars']:
+                        if v.get('init') is not None and T(f, v['t']).get('ref') and any(w.get('k') == 'call' and (w.get('pq') or '').endswith('Atomic::locked') for w in walk_expr(v['init'])):
+                            uses = [e for e in fn_exprs(f) if e.get('k') == 'var' and e.get('id') == v['id']]
+                            if uses:
+                                escaped.append((v, uses[0]))
+            ctx.check(not escaped, 'R-LOCK', f['pq'], f['n'] + f['sig'] + ':lock scope', fwhere(f, escaped[0][1].get('l') if escaped else None),
+                      'the value is updated inside the full expression that holds the locked() guard',
+                      '%s binds `%s` to the value behind a temporary locked() guard; the guard is destroyed (mutex released) at the end of that declaration and the later read-modify-write through `%s` runs unlocked: concurrent updates are lost (instantiation %s)'
+                      % (f['pq'], escaped[0][0]['n'] if escaped else '', escaped[0][0]['n'] if escaped else '', f['q']))
+            continue
         if not refs and f.get('n') in RMW:
             # composed of other (separately locked) members: the read and the write-back are two critical sections
             ctx.analysed(f)
@@ -85,7 +102,7 @@ def check_atomic_lock(ctx, prog):
         ok, why = lock_encloses(f, refs)
         ctx.check(ok, 'R-LOCK', f['pq'], f['n'] + f['sig'] + ':lock scope', fwhere(f), 'Lock on _mutex declared in an enclosing scope before every access to _x',
                   '%s: %s (instantiation %s)' % (f['pq'], why, f['q']))
-    ctx.floor('R-LOCK Atomic members', n, 60)
+    ctx.floor('R-LOCK Atomic members', n, 40)
     # Lock and Locked pair lock()/unlock()
     for cls, field in (('asl::Lock', '_m'), ('asl::Locked', 'x')):
         ctors = [f for f in prog.functions if f.get('clsp') == cls and f.get('kind') == 'ctor' and not f.get('implicit') and not f.get('copyctor')]
